@@ -31,6 +31,8 @@ def slices(tier):
         Slice("index3d", [T3], {"index", "as_tensor"}, 2, idx=(10, 11), maxrank=3),
         Slice("lists", [F, U, A], {"list", "index", "as_tensor"}, 2 if q else 3, lits=[L["zero"]], idx=(10, 11)),
         Slice("tensoralg", [F, U, A, B], {"dot", "inner", "outer", "transpose", "tr", "det", "inv", "cofac", "dev", "skew", "sym", "perp"}, 2, zeros=[(2,)], idx=(10,)),
+        # unary tensor operators applied to operands that carry free indices
+        Slice("free-index-operands", [U, A], {"index", "perp", "transpose", "dev", "skew", "sym", "tr", "neg", "abs"}, 2, idx=(10,), levels=[{"index"}, {"perp", "transpose", "dev", "skew", "sym", "tr", "neg", "abs"}], mikinds=("name", "slice", "fixed"), tiny=True),
         Slice("cross", [P, Q], {"cross", "dot", "inner", "outer", "neg", "index"}, 2, maxdim=3, idx=(10,), gdim=3, zeros=[(3,)]),
         Slice("complex", [F, U], {"conj", "real", "imag", "abs", "mul", "inner", "outer", "dot", "pow"}, 2, lits=[L["i"], L["two"]], complex_env=True),
         # elementary functions at their rational points (z = 0 and o = 1 in every environment; f generic: undefined)
